@@ -436,6 +436,71 @@ fn poly_oracle(c: &PolyCase, st: &mut Stats) -> Result<(), String> {
   Ok(())
 }
 
+
+#[derive(Clone, Debug, Serialize, Deserialize)]
+pub struct AdssPolyCase {
+  pub t: u32,
+  pub m1: Hx,
+  pub m2: Hx,
+  pub r1: Hx,
+  pub r2: Hx,
+  /// 0 = same coins, different messages; 1 = same message, different coins; 2 = both differ
+  pub rel: u8,
+}
+
+fn adss_poly_strat(_t: Tier) -> BoxedStrategy<AdssPolyCase> {
+  (3u32..12, bytes(80), bytes(80), bytes(40), bytes(40), 0u8..3)
+    .prop_map(|(t, m1, m2, r1, r2, rel)| AdssPolyCase { t, m1, m2, r1, r2, rel })
+    .boxed()
+}
+
+/// at the sharing layer: two different sharings (other message and/or other coins) never
+/// share a non-constant coefficient
+fn adss_poly_oracle(c: &AdssPolyCase, st: &mut Stats) -> Result<(), String> {
+  let t = c.t as usize;
+  let (mut m2, mut r2) = (c.m2.0.clone(), c.r2.0.clone());
+  match c.rel % 3 {
+    0 => r2 = c.r1.0.clone(),
+    1 => m2 = c.m1.0.clone(),
+    _ => {}
+  }
+  if m2 == c.m1.0 && r2 == c.r1.0 {
+    m2.push(0x01);
+  }
+  let coeffs = |m: &[u8], r: &[u8]| -> Result<Vec<BigUint>, String> {
+    let mut pts = Vec::new();
+    for _ in 0..t + 1 {
+      let b = adss::Commune::new(c.t, m.to_vec(), r.to_vec(), None).share().map_err(|e| e.to_string())?.to_bytes();
+      let (x, ys) = layout::share_point(&b).ok_or("share layout")?;
+      pts.push((x, ys[0].clone()));
+    }
+    let co = interpolate_coeffs(&pts[..t]);
+    if eval_lo_to_hi(&co, &pts[t].0) != pts[t].1 {
+      return Err("shares of one sharing do not lie on one polynomial".into());
+    }
+    Ok(co)
+  };
+  let c1 = coeffs(&c.m1, &c.r1)?;
+  let c2 = coeffs(&m2, &r2)?;
+  st.evals(1);
+  let rel = ["same coins, different messages", "same message, different coins", "different message and coins"][(c.rel % 3) as usize];
+  st.class(&format!("relation={rel}"));
+  if c1[0] == c2[0] {
+    return Err(format!("two different sharings ({rel}) have the same sharing key (constant term)"));
+  }
+  for (i, a) in c1.iter().enumerate().skip(1) {
+    for (j, b) in c2.iter().enumerate().skip(1) {
+      if a == b {
+        return Err(format!(
+          "two different sharings ({rel}, t={t}) share a polynomial coefficient (degree {i} of the first, degree {j} of the second): one share of the second plus the first sharing's polynomial reveals the second's key"
+        ));
+      }
+    }
+  }
+  st.nontrivial(&(c.t, fp(&c.m1.0), fp(&m2), fp(&c.r1.0), fp(&r2)));
+  Ok(())
+}
+
 pub fn property() -> Property {
   Property {
     id: "C02",
@@ -450,6 +515,7 @@ pub fn property() -> Property {
       prop_sub("recover_below_threshold", 2000, 80000, below_strat, below_oracle),
       prop_sub("report_secret_scan", 1500, 60000, scan_strat, scan_oracle),
       prop_sub("polynomial_shape", 600, 12000, poly_strat, poly_oracle),
+      prop_sub("sharing_layer_polynomials", 800, 16000, adss_poly_strat, adss_poly_oracle),
     ],
   }
 }
